@@ -632,6 +632,23 @@ def m_into(it, a, ty, callee):
     return it.call('<%s as std::convert::From<%s>>::from' % (dst, src), a, dst)
 
 
+def m_borrow_bytes(it, a, ty, callee):
+    """<T as Borrow<[u8]>>::borrow(&T) for a type parameter T: dispatch on the run-time value"""
+    p = a[0]
+    v = it.load(p) if isinstance(p, Ptr) else p
+    if isinstance(v, Ptr):              # T = &[u8] / &Vec<u8> ...
+        inner = it.load(v)
+        if isinstance(inner, Seq) and v.win is None:
+            return Ptr(v.cell, v.path, (0, len(inner.fields)))
+        return v
+    if isinstance(v, Seq):
+        return Ptr(p.cell, p.path, (0, len(v.fields)))
+    rt = it.runtime_type(v)
+    if rt is None:
+        raise Inconclusive('Borrow<[u8]> on %r' % (v,))
+    return it.call('<%s as std::borrow::Borrow<[u8]>>::borrow' % rt, a, ty)
+
+
 def m_inspect_err(it, a, ty, callee):
     return a[0]
 
@@ -733,6 +750,7 @@ def install(it):
     A(r'std::result::Result::<.*>::err', m_res_err)
     A(r'std::result::Result::<.*>::inspect_err::<.*>', m_inspect_err)
     A(r'core::bool::<impl bool>::then::<.*>', m_opt_then)
+    A(r'<[A-Z]\w* as std::borrow::Borrow<\[u8\]>>::borrow', m_borrow_bytes)
     A(r'<.* as std::convert::Into<.*>>::into', m_into)
     A(r'std::option::Option::<.*>::take', m_opt_take)
     A(r'std::(?:option::Option|result::Result)::<.*>::map::<.*>', m_opt_map)
